@@ -1,10 +1,71 @@
 package eng
 
+import (
+	"fmt"
+	"go/types"
+	"math"
+	"strings"
+)
+
 func registerModels(reg func(string, func(*Interp, []Value) Value)) {}
 
+// symRegexp stands for a compiled regular expression whose pattern is symbolic.
+type symRegexp struct {
+	pattern Str
+}
+
+func strKey(s Str) string {
+	if s.Concrete() {
+		return "c:" + s.S
+	}
+	var sb strings.Builder
+	for _, t := range s.Sym {
+		if t.IsConst() {
+			fmt.Fprintf(&sb, "k%d,", t.C)
+		} else {
+			fmt.Fprintf(&sb, "t%d,", t.id)
+		}
+	}
+	return sb.String()
+}
+
+// parseFloatStub models strconv.ParseFloat on a symbolic string: nondeterministically success with an
+// arbitrary double (the same double for the same symbolic text on one path), a syntax error, or a
+// range error with an infinite value.
 func (ip *Interp) parseFloatStub(s Str) Value {
-	ip.unsupported("strconv.ParseFloat on symbolic string")
-	return nil
+	w := ip.W
+	switch w.Choose(3) {
+	case 0:
+		key := "pf:" + strKey(s)
+		if w.memo == nil {
+			w.memo = map[string]Value{}
+		}
+		v, ok := w.memo[key]
+		if !ok {
+			b := w.freshVar(SBV64)
+			w.inputs = append(w.inputs, Input{Kind: "aux", Vars: []*Term{b}})
+			f := ip.TC.FFromBits(b)
+			// ParseFloat never returns NaN or Inf without an error for numeric text
+			w.addPC(ip.TC.Not(ip.TC.FIsNaN(f)))
+			w.addPC(ip.TC.Not(ip.TC.FIsInf(f)))
+			v = f
+			w.memo[key] = v
+		}
+		return Tuple{v, Iface{}}
+	case 1:
+		return Tuple{ConstF64(0), ip.numErrorSym("ParseFloat", s, "ErrSyntax")}
+	default:
+		return Tuple{ConstF64(math.Inf(1)), ip.numErrorSym("ParseFloat", s, "ErrRange")}
+	}
+}
+
+func (ip *Interp) numErrorSym(fn string, s Str, which string) Value {
+	sp := ip.P.ByPath["strconv"]
+	t := sp.Type("NumError").Object().Type()
+	inner := *ip.global(sp.Var(which)).C
+	c := new(Value)
+	*c = Struct{MkStr(fn), s, inner}
+	return Iface{T: types.NewPointer(t), V: Ptr{C: c, O: ip.newObj(t, "NumError")}}
 }
 
 func (ip *Interp) formatFloatStub(x *Term, fmtc byte, prec int) Str {
@@ -12,9 +73,17 @@ func (ip *Interp) formatFloatStub(x *Term, fmtc byte, prec int) Str {
 	return Str{}
 }
 
+// regexpCompileStub models regexp.Compile on a symbolic pattern.
 func (ip *Interp) regexpCompileStub(s Str) Value {
-	ip.unsupported("regexp.Compile on symbolic pattern")
-	return nil
+	w := ip.W
+	if w.Choose(2) == 0 {
+		return Tuple{Opaque{V: &symRegexp{pattern: s}}, Iface{}}
+	}
+	sp := ip.P.ByPath["regexp/syntax"]
+	t := sp.Type("Error").Object().Type()
+	c := new(Value)
+	*c = Struct{MkStr("missing closing )"), s}
+	return Tuple{Opaque{}, Iface{T: types.NewPointer(t), V: Ptr{C: c, O: ip.newObj(t, "syntax.Error")}}}
 }
 
 func (ip *Interp) regexpMatchesStub(re Opaque, s Str, n *Term) Value {
